@@ -84,5 +84,5 @@ package recovery
 //@   at call UpsertHeader#1 assert [foreign-record-is-create] !old(has(hdr.PAXRecords, "STFS.Action")) || old(hdr.PAXRecords["STFS.Action"]) == "CREATE"
 //@   at call UpsertHeader#1 assert [foreign-record-version] !old(has(hdr.PAXRecords, "STFS.Version")) || old(hdr.PAXRecords["STFS.Version"]) == "1"
 //@   property C03
-//@   at call RemoveSuffix#1 assert [suffix-stripped-only-when-added] old(has(hdr.PAXRecords, "STFS.UncompressedSize")) && !old(has(hdr.PAXRecords, "STFS.ReplacesName")) && old(hdr.PAXRecords["STFS.ReplacesContent"]) != "false"
+//@   at call RemoveSuffix#1 assert [suffix-stripped-only-when-added] old(has(hdr.PAXRecords, "STFS.UncompressedSize")) && !old(has(hdr.PAXRecords, "STFS.ReplacesName")) && old(hdr.PAXRecords["STFS.ReplacesContent"]) != "false" && old(hdr.PAXRecords["STFS.Action"]) != "DELETE"
 //@   at call FileInfo#1 assert [stored-size-is-content-length] old(has(hdr.PAXRecords, "STFS.UncompressedSize")) ==> hdr.Size == atoiF(old(hdr.PAXRecords["STFS.UncompressedSize"]))
